@@ -20,7 +20,7 @@ func init() { extractors = append(extractors, extractPushTx) }
 //     (path condition, returned expression), the operator and operands of the
 //     threshold comparison, and the default threshold as a fraction.
 func extractPushTx() {
-	l := newLean("PushTx")
+	l := newLean("PushTx", "Neutrino.Model.PushTx")
 	defer l.write()
 	out := map[string]any{}
 
@@ -194,6 +194,13 @@ func extractPushTx() {
 		l.def("closedSubArm", "String", fmt.Sprintf("%q", arm), "how the handler's select arm for the block subscription ends when the channel is closed (ok == false)")
 		out["closedSubArm"] = arm
 		l.def("handlerDeletesOnConf", "Bool", lbool(strings.Contains(body, "delete(transactions, txHash)")), "the handler deletes a tx reported on confChan")
+	}
+	if fd := funcDecl(f, "Broadcaster", "broadcastHandler"); fd != nil {
+		iv, kind := intervalSource(fd)
+		l.def("intervalSrcKind", "String", fmt.Sprintf("%q", kind), "what feeds the interval arm of the handler's select loop")
+		l.def("intervalSrc", "Neutrino.PushTx.IntervalSrc", iv,
+			"does the source of interval ticks stay armed: self re-arming (a ticker created once before the loop), or - for a one-shot timer - is Reset called on EVERY path through the interval arm / the block arm that obtains the rebroadcast semaphore / that finds a rebroadcast running")
+		out["intervalSrc"] = map[string]any{"kind": kind, "value": iv}
 	}
 	if fd := funcDecl(f, "Broadcaster", "rebroadcast"); fd != nil {
 		body := src(fd.Body)
@@ -620,4 +627,232 @@ func base(s string) string {
 		return s[i+1:]
 	}
 	return s
+}
+
+// ---- the handler's interval source ------------------------------------------
+
+// ivPath is one path through an arm of the handler's select: whether it went through the
+// non-blocking semaphore select (and on which side), and whether it re-armed the timer.
+type ivPath struct {
+	sem   string // "" (no semaphore select on the path), "acquired", "busy"
+	reset bool
+	ended bool // the path left the arm (return inside the arm itself / continue / break)
+}
+
+// intervalSource analyses broadcastHandler: which select arm of its loop is fed by a timer or ticker
+// created before the loop, and whether that source stays armed on every path through the arm.  It
+// follows calls of closures bound to local variables (triggerRebroadcast), both branches of every
+// if, every clause of an inner select; statements inside `go func(){...}()` run elsewhere and do not
+// count; a loop body may run zero times and does not count either.
+func intervalSource(fd *ast.FuncDecl) (string, string) {
+	none := "{ periodic := false }"
+	closures := map[string]*ast.FuncLit{}
+	ctor := map[string]string{} // local variable -> time.NewTicker | time.NewTimer
+	var loop *ast.ForStmt
+	for _, st := range fd.Body.List {
+		switch v := st.(type) {
+		case *ast.AssignStmt:
+			if len(v.Lhs) == 1 && len(v.Rhs) == 1 {
+				if id, ok := v.Lhs[0].(*ast.Ident); ok {
+					switch r := v.Rhs[0].(type) {
+					case *ast.FuncLit:
+						closures[id.Name] = r
+					case *ast.CallExpr:
+						if fn := src(r.Fun); fn == "time.NewTicker" || fn == "time.NewTimer" {
+							ctor[id.Name] = fn
+						}
+					}
+				}
+			}
+		case *ast.ForStmt:
+			if v.Cond == nil && v.Init == nil && v.Post == nil && loop == nil {
+				loop = v
+			}
+		}
+	}
+	var sel *ast.SelectStmt
+	if loop != nil {
+		for _, st := range loop.Body.List {
+			if s, ok := st.(*ast.SelectStmt); ok {
+				sel = s
+			}
+		}
+	}
+	if sel == nil {
+		fail("pushtx/broadcaster.go: broadcastHandler: for { select { ... } }")
+		return none, "missing"
+	}
+	recvOf := func(cc *ast.CommClause) string {
+		var e ast.Expr
+		switch c := cc.Comm.(type) {
+		case *ast.ExprStmt:
+			e = c.X
+		case *ast.AssignStmt:
+			if len(c.Rhs) == 1 {
+				e = c.Rhs[0]
+			}
+		}
+		if u, ok := e.(*ast.UnaryExpr); ok && u.Op == token.ARROW {
+			return src(u.X)
+		}
+		return ""
+	}
+	var tickArm, blockArm *ast.CommClause
+	timer := ""
+	for _, c := range sel.Body.List {
+		cc := c.(*ast.CommClause)
+		if cc.Comm == nil {
+			continue
+		}
+		ch := recvOf(cc)
+		if strings.HasSuffix(ch, ".C") && ctor[strings.TrimSuffix(ch, ".C")] != "" {
+			if tickArm != nil {
+				fail("pushtx/broadcaster.go: broadcastHandler: one select arm fed by a timer or ticker")
+			}
+			tickArm, timer = cc, strings.TrimSuffix(ch, ".C")
+		}
+		if ch == "sub.Notifications" {
+			blockArm = cc
+		}
+	}
+	if tickArm == nil || blockArm == nil {
+		fail("pushtx/broadcaster.go: broadcastHandler: a select arm receiving from <ticker or timer created before the loop>.C, and one receiving from sub.Notifications")
+		return none, "missing"
+	}
+	// non-deferred Stop / Reset / re-assignment of the source anywhere in the handler
+	stops, resets, reassigned := 0, 0, 0
+	ast.Inspect(fd.Body, func(n ast.Node) bool {
+		switch v := n.(type) {
+		case *ast.DeferStmt:
+			return false
+		case *ast.CallExpr:
+			switch src(v.Fun) {
+			case timer + ".Stop":
+				stops++
+			case timer + ".Reset":
+				resets++
+			}
+		case *ast.AssignStmt:
+			for _, lh := range v.Lhs {
+				if src(lh) == timer {
+					reassigned++
+				}
+			}
+		}
+		return true
+	})
+	reassigned-- // its definition
+	if ctor[timer] == "time.NewTicker" {
+		return fmt.Sprintf("{ periodic := %s }", lbool(stops == 0 && reassigned == 0)), "time.NewTicker"
+	}
+	// one-shot timer: enumerate the paths through the two arms
+	var walk func(stmts []ast.Stmt, in []ivPath, depth int, inClosure bool) []ivPath
+	walk = func(stmts []ast.Stmt, in []ivPath, depth int, inClosure bool) []ivPath {
+		live := in
+		var done []ivPath // paths that already left (the closure or the arm)
+		for _, st := range stmts {
+			if len(live) == 0 {
+				break
+			}
+			switch v := st.(type) {
+			case *ast.ExprStmt:
+				call, ok := v.X.(*ast.CallExpr)
+				if !ok {
+					continue
+				}
+				if src(call.Fun) == timer+".Reset" {
+					for i := range live {
+						live[i].reset = true
+					}
+				} else if id, ok := call.Fun.(*ast.Ident); ok && closures[id.Name] != nil && depth < 3 {
+					// a return inside the closure ends the closure, not the arm: back here every path goes on
+					live = walk(closures[id.Name].Body.List, live, depth+1, true)
+					for i := range live {
+						live[i].ended = false
+					}
+				}
+			case *ast.BlockStmt:
+				live = walk(v.List, live, depth, inClosure)
+			case *ast.IfStmt:
+				a := walk(v.Body.List, append([]ivPath(nil), live...), depth, inClosure)
+				var b []ivPath
+				switch e := v.Else.(type) {
+				case *ast.BlockStmt:
+					b = walk(e.List, append([]ivPath(nil), live...), depth, inClosure)
+				case *ast.IfStmt:
+					b = walk([]ast.Stmt{e}, append([]ivPath(nil), live...), depth, inClosure)
+				default:
+					b = append([]ivPath(nil), live...)
+				}
+				live = nil
+				for _, p := range append(a, b...) {
+					if p.ended {
+						done = append(done, p)
+					} else {
+						live = append(live, p)
+					}
+				}
+			case *ast.SelectStmt:
+				hasDefault := false
+				for _, c := range v.Body.List {
+					if c.(*ast.CommClause).Comm == nil {
+						hasDefault = true
+					}
+				}
+				var outp []ivPath
+				for _, c := range v.Body.List {
+					cc := c.(*ast.CommClause)
+					br := append([]ivPath(nil), live...)
+					if hasDefault {
+						for i := range br {
+							if cc.Comm == nil {
+								br[i].sem = "busy"
+							} else {
+								br[i].sem = "acquired"
+							}
+						}
+					}
+					outp = append(outp, walk(cc.Body, br, depth, inClosure)...)
+				}
+				live = nil
+				for _, p := range outp {
+					if p.ended {
+						done = append(done, p)
+					} else {
+						live = append(live, p)
+					}
+				}
+			case *ast.ReturnStmt, *ast.BranchStmt: // return / continue / break
+				for i := range live {
+					live[i].ended = true
+				}
+				done = append(done, live...)
+				live = nil
+			}
+		}
+		return append(live, done...)
+	}
+	flags := func(arm *ast.CommClause) (acq, busy bool, ok bool) {
+		paths := walk(arm.Body, []ivPath{{}}, 0, false)
+		acq, busy = true, true
+		nAcq, nBusy := 0, 0
+		for _, p := range paths {
+			switch p.sem {
+			case "acquired":
+				nAcq++
+				acq = acq && p.reset
+			case "busy":
+				nBusy++
+				busy = busy && p.reset
+			}
+		}
+		return acq, busy, nAcq > 0 && nBusy > 0
+	}
+	ta, tb, ok1 := flags(tickArm)
+	ba, bb, ok2 := flags(blockArm)
+	if !ok1 || !ok2 {
+		fail("pushtx/broadcaster.go: broadcastHandler: the interval arm and the block arm reach the non-blocking semaphore select of triggerRebroadcast")
+	}
+	return fmt.Sprintf("{ periodic := false, tickRearmAcquired := %s, tickRearmBusy := %s, blockRearmAcquired := %s, blockRearmBusy := %s }",
+		lbool(ta), lbool(tb), lbool(ba), lbool(bb)), "time.NewTimer"
 }
